@@ -176,6 +176,20 @@ def check_sums(ctx):
     shape.match(ctx, "R02.3", CAT + ".Sum.dagger:unit", assigned(fn, "unit"), "Sum([], self.cod, self.dom)", N, mod=CAT, node=fn, sig="dagger-unit")
     shape.match(ctx, "R02.3", CAT + ".Sum.dagger:terms", ret_expr(fn.body[-1:]), "self.upgrade(sum([f.dagger() for f in self.terms], unit))", N, mod=CAT, node=fn, sig="dagger-terms",
                 required="term-wise dagger, in order")
+    # the results above go through `upgrade`: every sum class rebuilds the same terms with the same type
+    sumc = m.cls(CAT + ".Sum")
+    nup = 0
+    for k in sorted(m.subclasses(sumc), key=lambda c: c.q):
+        if "upgrade" not in k.methods:
+            continue
+        uf = k.methods["upgrade"][0]
+        old = uf.args.args[0].arg
+        rets = [r for r in ast.walk(uf) if isinstance(r, ast.Return)]
+        for r in rets:
+            nup += 1
+            shape.match(ctx, "R02.3", k.q + ".upgrade", r.value, ["old", "%s(old.terms, old.dom, old.cod)" % k.name, "%s(old.terms, dom=old.dom, cod=old.cod)" % k.name], {old: "old"}, mod=k.mod, node=r, sig="sum-upgrade",
+                        required="the same terms with the same domain and codomain, as a sum of this class")
+    ctx.need(nup >= 3, "fewer than 3 Sum.upgrade methods found (%d)" % nup)
     fn = m.func(CAT + ".Sum.__add__")
     shape.match(ctx, "R02.3", CAT + ".Sum.__add__", ret_expr(fn.body[-1:]), "self.sum(self.terms + other.terms, self.dom, self.cod)", N, mod=CAT, node=fn, sig="add",
                 required="terms are concatenated in order, types kept")
